@@ -56,25 +56,25 @@ const MAGIC: u32 = 0x7472_6976;
 const VERSION_1: u64 = 1 << 32;
 
 // ---------------------------------------------------------------- the emulated device
-struct DevState {
+pub(crate) struct DevState {
     /// configuration memory and generation counter (gen_mask = 2^w - 1)
-    cfg: Vec<u8>, gen: u32, gen_mask: u32,
+    pub(crate) cfg: Vec<u8>, pub(crate) gen: u32, pub(crate) gen_mask: u32,
     /// per individual register read (generation or configuration window): the updates made just before it
-    sched: VecDeque<Vec<Vec<u8>>>,
+    pub(crate) sched: VecDeque<Vec<Vec<u8>>>,
     /// every configuration image the device has exposed; `cur` = the one exposed now
-    snaps: Vec<Vec<u8>>, cur: usize,
+    pub(crate) snaps: Vec<Vec<u8>>, pub(crate) cur: usize,
     /// (tag, offset, width, value, snapshot index) of generation reads (2) and window reads (0) / writes (1)
-    evs: Vec<[u128; 5]>,
+    pub(crate) evs: Vec<[u128; 5]>,
     /// bounds tests: window reads answered from this stream instead of memory
-    answers: Option<VecDeque<u64>>,
+    pub(crate) answers: Option<VecDeque<u64>>,
     // enough of the rest of a device for the init handshake of the real drivers
     version: u32, device_id: u32, features: u64, dfsel: u32, status: u32, qsel: u32, qready: [u32; 8],
     common: [u8; 56],
 }
-type St = Rc<RefCell<DevState>>;
+pub(crate) type St = Rc<RefCell<DevState>>;
 fn wmask(width: u8) -> u64 { if width >= 8 { u64::MAX } else { (1u64 << (8 * width as u32)) - 1 } }
 impl DevState {
-    fn new(cfg: Vec<u8>, gen: u32, gen_bits: u32, version: u32, device_id: u32, features: u64) -> DevState {
+    pub(crate) fn new(cfg: Vec<u8>, gen: u32, gen_bits: u32, version: u32, device_id: u32, features: u64) -> DevState {
         let gen_mask = if gen_bits >= 32 { u32::MAX } else { (1u32 << gen_bits) - 1 };
         DevState { snaps: vec![cfg.clone()], cfg, gen: gen & gen_mask, gen_mask, sched: VecDeque::new(), cur: 0, evs: vec![], answers: None,
             version, device_id, features, dfsel: 0, status: 0, qsel: 0, qready: [0; 8], common: [0; 56] }
@@ -219,16 +219,16 @@ impl ConfigurationAccess for PciCam {
 // ---------------------------------------------------------------- a transport on a fresh device
 /// tk: 0 legacy MMIO, 1 modern MMIO, 2 PCI. `len`: bytes of the MMIO window / `length` of the PCI capability.
 #[derive(Clone, Copy, Debug)]
-struct Geo { tk: u8, present: bool, len: u64, delta: usize }
+pub(crate) struct Geo { pub(crate) tk: u8, pub(crate) present: bool, pub(crate) len: u64, pub(crate) delta: usize }
 impl Geo {
-    fn base(&self) -> usize { if self.tk == 2 { PBASE + PCI_CFG_OFF as usize + self.delta } else { HBASE + self.delta + 0x100 } }
+    pub(crate) fn base(&self) -> usize { if self.tk == 2 { PBASE + PCI_CFG_OFF as usize + self.delta } else { HBASE + self.delta + 0x100 } }
     /// what the transport holds: bytes (MMIO) / u32 words (PCI)
-    fn wlen(&self) -> u64 { if self.tk == 2 { if self.present { self.len / 4 } else { 0 } } else { self.len } }
-    fn gen_bits(&self) -> u32 { if self.tk == 2 { 8 } else { 32 } }
-    fn enc(&self) -> [u128; 4] { [self.tk as u128, self.present as u128, self.wlen() as u128, self.base() as u128] }
-    fn name(&self) -> &'static str { match (self.tk, self.present) { (0, _) => "legacy", (1, _) => "modern", (_, true) => "pci", _ => "pci_nocap" } }
+    pub(crate) fn wlen(&self) -> u64 { if self.tk == 2 { if self.present { self.len / 4 } else { 0 } } else { self.len } }
+    pub(crate) fn gen_bits(&self) -> u32 { if self.tk == 2 { 8 } else { 32 } }
+    pub(crate) fn enc(&self) -> [u128; 4] { [self.tk as u128, self.present as u128, self.wlen() as u128, self.base() as u128] }
+    pub(crate) fn name(&self) -> &'static str { match (self.tk, self.present) { (0, _) => "legacy", (1, _) => "modern", (_, true) => "pci", _ => "pci_nocap" } }
 }
-enum Tp { M(MmioTransport<'static>), P(PciTransport), S(SomeTransport<'static>) }
+pub(crate) enum Tp { M(MmioTransport<'static>), P(PciTransport), S(SomeTransport<'static>) }
 macro_rules! with_t { ($tp:expr, $t:ident, $e:expr) => { match $tp { Tp::M($t) => $e, Tp::P($t) => $e, Tp::S($t) => $e } } }
 
 fn install(g: &Geo, st: &St) {
@@ -245,7 +245,7 @@ fn install(g: &Geo, st: &St) {
         if g.len > 0 { mmio::register(R_CFG, g.base(), g.len as usize, Box::new(CfgWin(st.clone()))); }
     }
 }
-fn make(g: &Geo, st: &St, wrapped: bool) -> Option<Tp> {
+pub(crate) fn make(g: &Geo, st: &St, wrapped: bool) -> Option<Tp> {
     install(g, st);
     let device_id = st.borrow().device_id;
     let r = catch_unwind(AssertUnwindSafe(|| -> Option<Tp> {
